@@ -11,18 +11,15 @@ All theorems are about `Model.DescViews` (hand-written from internal/filedesc/de
 desc_list_gen.go, desc.go and the construction loops of reflect/protodesc), tied to the Go code by
 the `descviews` harness. Every theorem quantifies over ALL lists / numbers / keys.
 
-Obligations and status
+Obligations and status (all proved; nothing refuted on the current tree)
   get_index                      proved
   byKey_first                    proved  (generated lists: Enums, EnumValues, Messages, Fields, Oneofs,
                                           Extensions, Services, Methods — incl. the lower-cased group keys)
-  oneof_byKey_first              REFUTED (witness; DESIGN finding 11, sig oneoffields-last-wins):
-                                   oneof_byKey_last          proved  (what the code does)
-                                   oneof_byKey_first_refuted proved  (negation on the witness)
-                                   oneof_byKey_first_partial proved  (holds when the keys are distinct)
+  oneof_byKey_first              proved  (OneofFields; first-wins since /repo 74fa6e8 — was DESIGN finding 11)
   ranges_has_iff (field, enum)   proved under NonOverlapping (= what CheckValid accepts, checkValid_iff)
+  fieldCheckValid_has            proved for every int32 list (the wrapping-end hypothesis is gone since /repo 0989bec)
   ranges_has_sound               proved for ARBITRARY lists; completeness refuted for overlapping lists
-  fieldCheckValid_has            proved under -2^31 < stop; REFUTED without it (witness, sig fieldranges-end-minint32-wraps):
-                                   fieldCheckValid_has_refuted
+                                 (such lists are rejected by CheckValid; not an obligation of the property)
   requiredNumbers_exact          proved
   fullName_join                  proved  (enum values are named in the enum's parent scope, as documented)
   parent_chain_terminates        proved
@@ -135,66 +132,70 @@ theorem ranges_has_complete_refuted :
   rw [enumHas, hs] at h1
   simp [bsearch, enumEnd] at h1
 
-/-- `CheckValid` (nil error) is exactly: every end point passes the number test and the listed ranges
-are non-empty and pairwise disjoint — so every range list that passed validation satisfies the
-hypothesis of `ranges_has_iff`. -/
-theorem checkValid_iff (e : Rng → Int) (ok : Int → Bool) (rs : List Rng) :
-    checkLoop e ok none (sortByStart rs) = true ↔
-      (∀ r ∈ rs, ok r.start = true ∧ ok (e r) = true) ∧ NonOverlapping e rs := by
-  rw [checkLoop_iff]
+/-- `CheckValid` (nil error) is exactly: every end point passes the number test, every range passes
+the non-emptiness clause, and the listed ranges are pairwise disjoint — so every range list that
+passed validation satisfies the hypothesis of `ranges_has_iff`. (`hok`: the non-emptiness clause
+implies `Start() <= End()`; trivial for enums, int32-ness for fields.) -/
+theorem checkValid_iff (e : Rng → Int) (ok : Int → Bool) (okR : Rng → Bool) (rs : List Rng)
+    (hok : ∀ r ∈ rs, okR r = true → r.start ≤ e r) :
+    checkLoop e ok okR none (sortByStart rs) = true ↔
+      (∀ r ∈ rs, ok r.start = true ∧ ok (e r) = true ∧ okR r = true) ∧ NonOverlapping e rs := by
   have hp := sortByStart_perm rs
+  rw [checkLoop_iff _ _ _ _ _ (fun r hr => hok r (hp.mem_iff.1 hr))]
   constructor
   · rintro ⟨h1, h2, _⟩
-    refine ⟨fun r hr => ?_, nonOverlapping_of_sorted e rs ⟨h2, fun r hr => (h1 r hr).2.2⟩⟩
-    have := h1 r (hp.mem_iff.2 hr)
-    exact ⟨this.1, this.2.1⟩
+    refine ⟨fun r hr => h1 r (hp.mem_iff.2 hr),
+      nonOverlapping_of_sorted e rs ⟨h2, fun r hr => hok r (hp.mem_iff.1 hr) (h1 r hr).2.2⟩⟩
   · rintro ⟨h1, h2⟩
     have hs := sorted_of_nonOverlapping e rs h2
-    refine ⟨fun r hr => ?_, hs.1, fun rp hrp => by cases hrp⟩
-    have := h1 r (hp.mem_iff.1 hr)
-    exact ⟨this.1, this.2, hs.2 r hr⟩
+    exact ⟨fun r hr => h1 r (hp.mem_iff.1 hr), hs.1, fun rp hrp => by cases hrp⟩
 
 theorem enumCheckValid_iff (rs : List Rng) : enumCheckValid rs = true ↔ EnumNonOverlapping rs := by
   unfold enumCheckValid
-  rw [checkValid_iff]
-  simp [EnumNonOverlapping, NonOverlapping, enumEnd]
+  rw [checkValid_iff _ _ _ _ (fun r _ h => by simpa using h)]
+  simp only [EnumNonOverlapping, NonOverlapping, enumEnd, true_and]
+  constructor
+  · exact fun h => h.2
+  · exact fun h => ⟨fun r hr => decide_eq_true (h.1 r hr), h⟩
 
-/-- A field-range list that passes `CheckValid` (int32 entries) has `Has` = listed membership. -/
-theorem fieldCheckValid_has (isMessageSet : Bool) (rs : List Rng) (n : Int)
-    (h32 : ∀ r ∈ rs, Int32 r.start ∧ Int32 r.stop) (hstop : ∀ r ∈ rs, -2147483648 < r.stop)
-    (hc : fieldCheckValid isMessageSet rs = true) :
-    fieldHas rs n = true ↔ ∃ r ∈ rs, InFieldRange r n := by
-  unfold fieldCheckValid at hc
-  rw [checkValid_iff] at hc
-  apply ranges_has_iff
-  obtain ⟨_, hv, hpw⟩ := hc
-  refine ⟨fun r hr => ?_, ?_⟩
-  · have := hv r hr
-    rw [fieldEnd_eq r (h32 r hr).2 (hstop r hr)] at this
-    exact ⟨(h32 r hr).1, (h32 r hr).2, by omega⟩
-  · refine List.Pairwise.imp_of_mem ?_ hpw
+/-- `FieldRanges.CheckValid` on int32 pairs: nil iff all end points are valid numbers and the listed
+ranges are non-empty (`start < stop`) and pairwise disjoint. -/
+theorem fieldCheckValid_iff (isMessageSet : Bool) (rs : List Rng)
+    (h32 : ∀ r ∈ rs, Int32 r.start ∧ Int32 r.stop) :
+    fieldCheckValid isMessageSet rs = true ↔
+      (∀ r ∈ rs, isValidFieldNumber isMessageSet r.start = true ∧ isValidFieldNumber isMessageSet (r.stop - 1) = true) ∧
+      FieldNonOverlapping rs := by
+  have hend : ∀ r ∈ rs, r.start < r.stop → fieldEnd r = r.stop - 1 := fun r hr h =>
+    fieldEnd_eq r (h32 r hr).2 (by have := (h32 r hr).1; unfold Int32 at this; omega)
+  unfold fieldCheckValid
+  rw [checkValid_iff _ _ _ _ (fun r hr h => by
+    have h : r.start < r.stop := by simpa using h
+    rw [hend r hr h]; omega)]
+  constructor
+  · rintro ⟨h1, h2⟩
+    have hlt : ∀ r ∈ rs, r.start < r.stop := fun r hr => by simpa using (h1 r hr).2.2
+    refine ⟨fun r hr => ⟨(h1 r hr).1, by rw [← hend r hr (hlt r hr)]; exact (h1 r hr).2.1⟩,
+      fun r hr => ⟨(h32 r hr).1, (h32 r hr).2, hlt r hr⟩, ?_⟩
+    refine List.Pairwise.imp_of_mem ?_ h2.2
     intro a b ha hb hab
-    rw [fieldEnd_eq a (h32 a ha).2 (hstop a ha), fieldEnd_eq b (h32 b hb).2 (hstop b hb)] at hab
+    rw [hend a ha (hlt a ha), hend b hb (hlt b hb)] at hab
     omega
+  · rintro ⟨h1, h2⟩
+    have hlt : ∀ r ∈ rs, r.start < r.stop := fun r hr => (h2.1 r hr).2.2
+    refine ⟨fun r hr => ⟨(h1 r hr).1, by rw [hend r hr (hlt r hr)]; exact (h1 r hr).2, by simpa using hlt r hr⟩,
+      nonOverlapping_of_field h2⟩
 
-/-- REFUTED without the guard `-2^31 < stop` (sig `fieldranges-end-minint32-wraps`): a stored exclusive end
-of MinInt32 makes `End() = r[1]-1` wrap to MaxInt32; `CheckValid(isMessageSet = true)` accepts the list
-`[(4, -2147483648)]` and `Has(100)` is true although the listed range `[4, -2^31)` is empty. (Reachable
-through protodesc.NewFile for a MessageSet message; `fieldCheckValid_has` above is the partial theorem,
-its hypothesis `hstop` excludes exactly this.) -/
-theorem fieldCheckValid_has_refuted :
-    ¬ (∀ (isMessageSet : Bool) (rs : List Rng) (n : Int),
-        (∀ r ∈ rs, Int32 r.start ∧ Int32 r.stop) → fieldCheckValid isMessageSet rs = true →
-        (fieldHas rs n = true ↔ ∃ r ∈ rs, InFieldRange r n)) := by
-  intro h
-  have hs : sortByStart [⟨4, -2147483648⟩] = [⟨4, -2147483648⟩] := by
-    simp [sortByStart]
-  have hc : fieldCheckValid true [⟨4, -2147483648⟩] = true := by
-    rw [fieldCheckValid, hs]; decide
-  have hh : fieldHas [⟨4, -2147483648⟩] 100 = true := by
-    rw [fieldHas, hs]; simp [bsearch, fieldEnd, wrap32]
-  have := (h true [⟨4, -2147483648⟩] 100 (by simp [Int32]) hc).1 hh
-  simp [InFieldRange] at this
+/-- A field-range list (int32 entries) that passes `CheckValid` has `Has` = listed membership. -/
+theorem fieldCheckValid_has (isMessageSet : Bool) (rs : List Rng) (n : Int)
+    (h32 : ∀ r ∈ rs, Int32 r.start ∧ Int32 r.stop)
+    (hc : fieldCheckValid isMessageSet rs = true) :
+    fieldHas rs n = true ↔ ∃ r ∈ rs, InFieldRange r n :=
+  ranges_has_iff rs n ((fieldCheckValid_iff isMessageSet rs h32).1 hc).2
+
+/-- The list that used to slip through (`End()` wrapping for a stored end of MinInt32) is rejected. -/
+example : fieldCheckValid true [⟨4, -2147483648⟩] = false := by
+  have hs : sortByStart [⟨4, -2147483648⟩] = [⟨4, -2147483648⟩] := by simp [sortByStart]
+  rw [fieldCheckValid, hs]; decide
 
 /-! ## Keyed lookups -/
 
@@ -233,44 +234,26 @@ theorem byKey_first_get (keysOf : α → List κ) (l : List α) (k : κ) :
       rw [← ih]
       cases ds.findIdx? (fun d => decide (k ∈ keysOf d)) <;> simp [getAt]
 
-/-- `OneofFields` as coded (unconditional `m[key] = f`): the LAST element with that key. -/
-theorem oneof_byKey_last (keyOf : α → κ) (l : List α) (k : κ) (i : Nat) :
-    byKeyLast keyOf l k = some i ↔
-      ∃ h : i < l.length, keyOf l[i] = k ∧ ∀ j (_ : i < j) (hj : j < l.length), keyOf l[j] ≠ k :=
-  byKeyLast_some_iff keyOf l k i
+/-- `OneofFields` (`Oneof.Fields()`): every keyed lookup returns the FIRST member with that key, for
+every member list and every key — in particular when several members share a JSON name. -/
+theorem oneof_byKey_first (keyOf : α → κ) (l : List α) (k : κ) :
+    byKeyOneof keyOf l k = l.findIdx? (fun d => decide (keyOf d = k)) := by
+  unfold byKeyOneof
+  rw [byKey_first]
+  congr 1; funext d; simp [eq_comm]
+
+theorem oneof_byKey_first_iff (keyOf : α → κ) (l : List α) (k : κ) (i : Nat) :
+    byKeyOneof keyOf l k = some i ↔
+      ∃ h : i < l.length, keyOf l[i] = k ∧ ∀ j (hj : j < i), keyOf (l[j]'(by omega)) ≠ k := by
+  unfold byKeyOneof
+  rw [byKey_first_iff]
+  simp [eq_comm]
 
 theorem oneof_byKey_nil_iff (keyOf : α → κ) (l : List α) (k : κ) :
-    byKeyLast keyOf l k = none ↔ ∀ d ∈ l, keyOf d ≠ k :=
-  byKeyLast_none_iff keyOf l k
-
-/-- PARTIAL (the hypothesis excludes finding 11): when no two members of the oneof share the key,
-`OneofFields.ByX` agrees with the first-wins answer of the message's field list discipline.
-The full statement (no `Nodup` hypothesis) is FALSE of the current code — see
-`oneof_byKey_first_refuted`. -/
-theorem oneof_byKey_first_partial (keyOf : α → κ) (l : List α) (k : κ)
-    (hd : (l.map keyOf).Nodup) :
-    byKeyLast keyOf l k = byKeyFirst (fun d => [keyOf d]) l k := by
-  apply Option.ext
-  intro i
-  rw [byKeyLast_some_iff, byKeyFirst_some_iff]
-  have hinj : ∀ a b (ha : a < l.length) (hb : b < l.length), keyOf l[a] = keyOf l[b] → a = b := by
-    intro a b ha hb hab
-    have := (List.getElem_inj (xs := l.map keyOf) (i := a) (j := b)
-      (h₀ := by simpa using ha) (h₁ := by simpa using hb) hd).1 (by simpa using hab)
-    exact this
-  constructor
-  · rintro ⟨h, h1, _⟩
-    refine ⟨h, by simp [h1], ?_⟩
-    intro j hj hk
-    simp only [List.mem_singleton] at hk
-    have := hinj i j h (by omega) (by rw [h1, hk])
-    omega
-  · rintro ⟨h, h1, _⟩
-    simp only [List.mem_singleton] at h1
-    refine ⟨h, h1.symm, ?_⟩
-    intro j hij hj hk
-    have := hinj i j h hj (by rw [← h1, hk])
-    omega
+    byKeyOneof keyOf l k = none ↔ ∀ d ∈ l, keyOf d ≠ k := by
+  unfold byKeyOneof
+  rw [byKey_first_nil_iff]
+  simp [eq_comm]
 
 end tables
 
@@ -279,23 +262,11 @@ def witnessOneof : List (List Char × List Char) :=
   [(['f','o','o','_','b','a','r'], ['f','o','o','B','a','r']),
    (['f','o','o','B','a','r'],     ['f','o','o','B','a','r'])]
 
-/-- REFUTED obligation (DESIGN finding 11, sig `oneoffields-last-wins`): "ByJSONName returns the first
-element with that key" is false of `OneofFields.lazyInit`. Witness: proto2
-`M{oneof o{int32 foo_bar=1; int32 fooBar=2}}` — both members have JSON name `fooBar`;
-`o.Fields().ByJSONName("fooBar")` is member 1 (`fooBar`), the first element with that key is
-member 0 (`foo_bar`), which is also what `M.Fields().ByJSONName("fooBar")` returns. -/
-theorem oneof_byKey_first_refuted :
-    ¬ (∀ (l : List (List Char × List Char)) (k : List Char),
-        byKeyLast (·.2) l k = l.findIdx? (fun d => decide (k = d.2))) := by
-  intro h
-  have := h witnessOneof ['f','o','o','B','a','r']
-  revert this
+/-- Former witness of DESIGN finding 11 (proto2 `M{oneof o{int32 foo_bar=1; int32 fooBar=2}}`, both
+members with JSON name `fooBar`): the oneof view now answers with member 0, like the message view. -/
+example : byKeyOneof (fun (d : List Char × List Char) => d.2) witnessOneof ['f','o','o','B','a','r'] = some 0 := by
   decide
-
-/-- On the same witness the generated `Fields` list answers with the first element. -/
 example : byKeyFirst (fun (d : List Char × List Char) => [d.2]) witnessOneof ['f','o','o','B','a','r'] = some 0 := by
-  decide
-example : byKeyLast (fun (d : List Char × List Char) => d.2) witnessOneof ['f','o','o','B','a','r'] = some 1 := by
   decide
 
 /-! ## Get / Index, Names, FieldNumbers, RequiredNumbers, oneof links -/
